@@ -51,7 +51,7 @@ func c11Sources() (Splicer, [][]*vItem) {
 		for j := 0; j < n; j++ {
 			it := &vItem{src: i, idx: j}
 			if verifrt.Choice("dated", 2) == 1 {
-				it.ts = time.Unix(int64(verifrt.Int("sec", 0, 1<<40)), 0)
+				it.ts = time.Unix(int64(verifrt.Int("sec", 0, 1<<40)), int64(verifrt.Int("nsec", 0, 999999999)))
 			}
 			items = append(items, it)
 			all[i] = append(all[i], it)
